@@ -21,6 +21,13 @@ api      the other public ways to render (translate(mRNA), translate(name) after
          register_template(name=...) re-registered under one name for every template), a fresh instance per case, a
          second live instance built through the constructor (templates=, no custom filters, not silent) with
          different templates under the same names, an instance whose included children were re-registered.
+iso      instance isolation: three judged instances (default constructor + register_template; no templates; own
+         filters= and templates=), each built BETWEEN sibling instances that were given other names through every
+         instance-level extension point (constructor filters= / templates=, register_template, its name= override,
+         create_template; before and after the judged instance, one sibling extended later) and that re-define the
+         built-in filter names and the judged instance's template names. Templates mention every sibling-only name in
+         every role it could be confused with (default word, include target -> unknown-include marker, plain/optional
+         variable) and are rendered right after siblings rendered them; reference = the judged instance's OWN tables.
 The instances under test are built with custom filters passed to the constructor.
 """
 from __future__ import annotations
@@ -443,6 +450,75 @@ _RIB = {}
 RENDERS = [0, 0]  # compared renders, translate() executions they caused (includes recurse)
 ENTRY_NAME = "entry_point"
 
+# ---- isolation family: what OTHER instances in the process were given must not change what an instance renders ----
+# judged instances; each is built between sibling instances (see iso_group) and judged against ITS OWN registry/filters
+ISO_ENVS = {
+    "iso-default": dict(registry=REGISTRY, custom=False),  # Ribosome(strict=) + register_template, not silent
+    "iso-bare": dict(registry={}, custom=False),           # Ribosome(strict=, silent=True): no template at all
+    "iso-custom": dict(registry=ALT_REGISTRY, custom=True),  # Ribosome(templates=, filters=): its own filters/templates
+}
+ENVS.update(ISO_ENVS)
+# names that only a SIBLING instance knows: name -> (table it was put in, how it got there)
+SIB_FILTER_NAMES = {"sfb": "constructor-filters:sibling-built-before", "sfa": "constructor-filters:sibling-built-after"}
+SIB_TEMPLATE_NAMES = {
+    "stcb": "constructor-templates:sibling-built-before", "stca": "constructor-templates:sibling-built-after",
+    "strb": "register_template:sibling-built-before", "stra": "register_template:sibling-built-after",
+    "stnb": "create_template:sibling-built-before", "stna": "create_template:sibling-built-after",
+    "stob": "register_template-name-override:sibling-built-before", "stoa": "register_template-name-override:sibling-built-after",
+    "stlb": "create_template:earlier-sibling-extended-later",
+}
+_ISO = {}
+
+
+def _sib_text(name):
+    return "SIB-TPL<%s>{{?v}}" % name
+
+
+def _sib_filters(own_name):
+    """A sibling's constructor filters: its own new name + its own versions of every built-in / harness filter name."""
+    names = (own_name,) + FILTERS_ALL + tuple(CUSTOM_FILTERS)
+    return {n: (lambda x, n=n: "SIB-FILTER<%s>(%s)" % (n, x)) for n in names}
+
+
+def _sibling_ctor(suffix):
+    """Everything through the constructor: templates= (new name + the judged instances' names), filters=."""
+    tn = "stc" + suffix
+    tpls = {n: mRNA(sequence=_sib_text(n), name=n) for n in (tn,) + tuple(REGISTRY)}
+    return Ribosome(templates=tpls, filters=_sib_filters("sf" + suffix), silent=True)
+
+
+def _sibling_mut(suffix):
+    """No constructor argument but silent; everything through register_template / create_template afterwards."""
+    r = Ribosome(silent=True)
+    r.register_template(mRNA(sequence=_sib_text("str" + suffix), name="str" + suffix))
+    r.create_template(_sib_text("stn" + suffix), "stn" + suffix)
+    r.register_template(mRNA(sequence=_sib_text("sto" + suffix), name="not_this_name"), name="sto" + suffix)
+    for n in REGISTRY:
+        r.create_template(_sib_text(n), n)
+    return r
+
+
+def iso_group(env, strict):
+    """-> (judged instance, siblings). Siblings are built before AND after the judged instance; one earlier sibling
+    is extended once more after the judged instance exists."""
+    g = _ISO.get((env, strict))
+    if g is None:
+        before = [_sibling_ctor("b"), _sibling_mut("b")]
+        if env == "iso-default":
+            with contextlib.redirect_stdout(io.StringIO()):
+                r = Ribosome(strict=strict)
+                for name, seq in REGISTRY.items():
+                    r.register_template(mRNA(sequence=seq, name=name))
+        elif env == "iso-bare":
+            r = Ribosome(strict=strict, silent=True)
+        else:
+            r = Ribosome(templates={n: mRNA(sequence=q, name=n) for n, q in ALT_REGISTRY.items()},
+                         filters=dict(CUSTOM_FILTERS), strict=strict, silent=True)
+        after = [_sibling_ctor("a"), _sibling_mut("a")]
+        before[1].create_template(_sib_text("stlb"), "stlb")
+        g = _ISO[(env, strict)] = (r, before + after)
+    return g
+
 
 def build(env, strict):
     if env == "alt":
@@ -466,10 +542,21 @@ def ribosome(strict, env="main"):
 
 def observe(tstr, ctx, strict=False, env="main", how="synthesize", count=False):
     """-> ('ok', sequence, warnings) | ('raise', ExcName, message)"""
-    rib = build(env, strict) if how == "fresh" else ribosome(strict, env)
+    try:
+        if how == "isolated":
+            rib, sibs = iso_group(env, strict)
+        else:
+            rib, sibs = (build(env, strict) if how == "fresh" else ribosome(strict, env)), ()
+    except Exception as e:  # noqa: BLE001  (a changed tree may fail here: judged, not a harness crash)
+        return ("raise", type(e).__name__, "while building the instances: %s" % e)
+    for sib in (sibs[0], sibs[-1]) if sibs else ():  # the same template was just rendered by other instances
+        try:
+            sib.synthesize(tstr, **ctx)
+        except Exception:  # noqa: BLE001
+            pass
     n0 = rib._translations_count
     try:
-        if how in ("synthesize", "fresh"):
+        if how in ("synthesize", "fresh", "isolated"):
             p = rib.synthesize(tstr, **ctx)
         elif how == "mrna":
             p = rib.translate(mRNA(sequence=tstr, name="an_object"), **ctx)
@@ -658,6 +745,8 @@ def judge(case):
     """case: {'phase': 1|2|'2u'|'strict'|'api', 'tpl', 'ctx', 'meta'?, 'strict'?} -> ('skip'|'ok', [(key, what)], outcome class)"""
     if case["phase"] == "api":
         return judge_api(case)
+    if case["phase"] == "iso":
+        return judge_iso(case)
     tpl, ctx = case["tpl"], case["ctx"]
     tstr = emit(tpl)
     ra = ref_alts(tstr, ctx)
@@ -715,14 +804,45 @@ API_PATHS = (
 )
 
 
-def judge_api(case):
-    """Every other public route to a rendering, each against the reference for the instance it runs on."""
+ISO_PATHS = (
+    ("isolated:default-constructor", "iso-default", "isolated"),
+    ("isolated:no-templates", "iso-bare", "isolated"),
+    ("isolated:own-filters-and-templates", "iso-custom", "isolated"),
+)
+
+
+def judge_iso(case):
+    """Isolation family: judged like an api case on every isolated instance; a violation is attributed by re-running
+    every single segment alone on the same instance (the focus segment first)."""
+    status, viol, oc = judge_api(case, ISO_PATHS, "", "iso")
+    if not viol:
+        return status, viol, oc
+    tpl, pos = case["tpl"], case["pos"]
+    out = []
+    for key, what in viol:
+        path = [p for p in ISO_PATHS if key.startswith(p[0] + ":")]
+
+        def fails(seg):
+            return bool(judge_api(dict(case, tpl=(seg,)), path, "", "iso")[1])
+
+        if fails(tpl[pos]):
+            tag = case["focus"]
+        else:
+            others = [s for i, s in enumerate(tpl) if i != pos and fails(s)]
+            tag = "ordinary-segment:" + seg_kind(others[0]) if others else "cross-segment"
+        out.append(("%s:%s" % (key, tag), what))
+    return status, out, oc
+
+
+def judge_api(case, paths=API_PATHS, tag="", family="api"):
+    """Every other public route to a rendering, each against the reference for the instance it runs on.
+    tag: appended to every key (isolation family: the syntactic role and origin of the sibling-only name)."""
     tpl, ctx, strict = case["tpl"], case["ctx"], case["strict"]
     tstr = emit(tpl)
     viol = []
     oc = []
     judged = 0
-    for label, env, how in API_PATHS:
+    for label, env, how in paths:
         ra = ref_alts(tstr, ctx, env)
         if ra is None:
             continue
@@ -734,25 +854,25 @@ def judge_api(case):
         needed = sorted(set(ref.needed_unbound))
         if got[0] == "raise":
             if not strict or got[1] != "ValueError":
-                viol.append(("%s:raises:%s" % (label, got[1]), desc + "raised %s: %s" % (got[1], got[2])))
+                viol.append(("%s:raises:%s%s" % (label, got[1], tag), desc + "raised %s: %s" % (got[1], got[2])))
             elif not static_unbound(parse(tstr, e["custom"]), e["registry"], ctx, custom=e["custom"]):
-                viol.append(("%s:strict-raises-bound" % label, desc + "every referenced variable is bound but strict "
+                viol.append(("%s:strict-raises-bound%s" % (label, tag), desc + "every referenced variable is bound but strict "
                              "mode raised %r" % got[2]))
         elif strict and needed:
-            viol.append(("%s:strict-no-raise" % label, desc + "plain variable %r is needed and unbound but strict mode "
+            viol.append(("%s:strict-no-raise%s" % (label, tag), desc + "plain variable %r is needed and unbound but strict mode "
                          "returned %r" % (needed[0][0], got[1])))
         elif got[1] not in alts:
-            viol.append(("%s:output-mismatch" % label, desc + "expected %r, observed %r" % (alts[0], got[1])))
+            viol.append(("%s:output-mismatch%s" % (label, tag), desc + "expected %r, observed %r" % (alts[0], got[1])))
         elif not strict:
             for name, where in needed:
                 if not any(re.search(r"(?<!\w)%s(?!\w)" % re.escape(name), w) for w in got[2]):
-                    viol.append(("%s:missing-warning" % label, desc + "plain variable %r is needed and unbound, warnings "
+                    viol.append(("%s:missing-warning%s" % (label, tag), desc + "plain variable %r is needed and unbound, warnings "
                                  "%r" % (name, got[2])))
                     break
         oc.append((how, got[0], got[0] == "ok" and got[1] != tstr))
     if not judged:
         return "skip", [], None
-    return "ok", viol, ("api", strict, tuple(oc))
+    return "ok", viol, (family, strict, tuple(oc))
 
 
 # ----------------------------------------------------------------------------------------------
@@ -762,10 +882,12 @@ TIERS = {
     # plan = [(kind level, number of segments)], w_values for phase 1
     "quick": dict(plan=[("full", 0), ("full", 1), ("std", 2), ("core", 3)], dplan=[("std", 1), ("core", 2), ("core", 3)],
                   splan=[("shadow", 1), ("shadow", 2)], aplan=[("full", 1), ("std", 2)],
+                  xplan=[("core", 1), ("core", 2)],
                   w_values=(MISSING, "w")),
     "thorough": dict(plan=[("full", 0), ("full", 1), ("full", 2), ("std", 3), ("core", 4)],
                      dplan=[("full", 1), ("std", 2), ("std", 3), ("core", 4)],
                      splan=[("shadow", 1), ("shadow", 2), ("shadow", 3)], aplan=[("full", 1), ("std", 2), ("core", 3)],
+                     xplan=[("core", 1), ("std", 2), ("core", 3)],
                      w_values=W_VALUES),
 }
 _REFS_W: dict = {}
@@ -851,7 +973,49 @@ def api_cases(tpl):
                 yield {"phase": "api", "tpl": tpl, "ctx": mkctx(v, w), "strict": strict}
 
 
-FAMILIES = {"t": cases_for, "d": lambda it, cfg: literal_cases(it), "s": lambda it, cfg: shadow_cases(it),
+def iso_focus_segments():
+    """(segment, key tag): every name that only ANOTHER instance was given, in every syntactic role in which a leaked
+    table entry could be picked up (word after '|', include target, plain / optional variable), and every name that a
+    sibling re-defined (built-in filters, the judged instance's own templates) in its proper role."""
+    out = []
+    foreign = [(n, "filter-name:" + o) for n, o in SIB_FILTER_NAMES.items()]
+    foreign += [(n, "filter-name:constructor-filters:harness-main-instance") for n in ("cf0", "cf_neutral")]
+    foreign += [(n, "template-name:" + o) for n, o in SIB_TEMPLATE_NAMES.items()]
+    for n, o in foreign:
+        for role, seg in (("default-word", ("def", "v", n)), ("include-target", ("inc", n)), ("variable", (V, n)),
+                          ("optional-variable", ("opt", n))):
+            out.append((seg, "%s-as-%s" % (o, role)))
+    out += [(("filt", "v", f), "filter-name:sibling-redefines-built-in") for f in FILTERS_ALL]
+    out += [(("inc", n), "template-name:sibling-redefines-own-template") for n in REG_AST]
+    return out
+
+
+def iso_templates(xplan):
+    """One focus segment at every position among n-1 ordinary segments. -> (tpl, position, key tag)"""
+    seen, out = set(), []
+    for level, n in xplan:
+        kinds = seg_kinds(level)
+        for pos in range(n):
+            for seg, tag in iso_focus_segments():
+                for rest in itertools.product(kinds, repeat=n - 1):
+                    rest = number_text(rest)
+                    tpl = rest[:pos] + (seg,) + rest[pos:]
+                    s = emit(tpl)
+                    if s not in seen:
+                        seen.add(s)
+                        out.append((tpl, pos, tag))
+    return out
+
+
+def iso_cases(item):
+    tpl, pos, tag = item
+    for v in STRICT_V:
+        for w in (MISSING, "w"):
+            for strict in (False, True):
+                yield {"phase": "iso", "tpl": tpl, "ctx": mkctx(v, w), "strict": strict, "pos": pos, "focus": tag}
+
+
+FAMILIES = {"x": lambda it, cfg: iso_cases(it), "t": cases_for, "d": lambda it, cfg: literal_cases(it), "s": lambda it, cfg: shadow_cases(it),
             "a": lambda it, cfg: api_cases(it)}
 
 
@@ -874,7 +1038,7 @@ def _work(arg):
                 st["phase2_slot_w_not_referenced_skipped"] += 4
                 continue
             status, vs, oc = judge(case)
-            ph = "phase%s" % case["phase"] if case["phase"] not in ("strict", "api") else case["phase"]
+            ph = "phase%s" % case["phase"] if case["phase"] not in ("strict", "api", "iso") else case["phase"]
             if status == "skip":
                 st[ph + "_unspecified_skipped"] += 1
                 continue
@@ -883,7 +1047,7 @@ def _work(arg):
                 st["of_which_%s_family" % case["family"]] += 1
             if oc is not None:
                 outcomes.add(oc)
-                if oc[-1] is True or oc[0] == "strict" or (oc[0] == "api" and any(x[2] or x[1] == "raise" for x in oc[2])):
+                if oc[-1] is True or oc[0] == "strict" or (oc[0] in ("api", "iso") and any(x[2] or x[1] == "raise" for x in oc[2])):
                     st["nontrivial_cases"] += 1
             if len(case["tpl"]) <= 1 and case["phase"] == 1:
                 outcomes.add(("out", observe(emit(case["tpl"]), case["ctx"])[1]))
@@ -909,8 +1073,9 @@ def run(ctx):
     dtpls = common.rotate(literal_templates(cfg["dplan"]), ctx.seed)
     stpls = common.rotate(templates(cfg["splan"]), ctx.seed)
     atpls = common.rotate(templates(cfg["aplan"]), ctx.seed)
+    xtpls = common.rotate(iso_templates(cfg["xplan"]), ctx.seed)
     n = common.NPROC * 6
-    jobs = [(fam, ch, cfg) for fam, seq in (("t", tpls), ("d", dtpls), ("s", stpls), ("a", atpls))
+    jobs = [(fam, ch, cfg) for fam, seq in (("t", tpls), ("d", dtpls), ("s", stpls), ("a", atpls), ("x", xtpls))
             for ch in common.chunked(seq, n)]
     st = Counter()
     viols = {}
@@ -945,10 +1110,14 @@ def run(ctx):
         literal_payload_templates=len(dtpls),
         shadow_templates=len(stpls),
         api_templates=len(atpls),
+        isolation_templates=len(xtpls),
         plan=[list(p) for p in cfg["plan"]],
         literal_plan=[list(p) for p in cfg["dplan"]],
         shadow_plan=[list(p) for p in cfg["splan"]],
         api_plan=[list(p) for p in cfg["aplan"]],
+        isolation_plan=[list(p) for p in cfg["xplan"]],
+        isolation_paths=[p[0] for p in ISO_PATHS],
+        isolation_focus_segments=len(iso_focus_segments()),
         api_paths=[p[0] for p in API_PATHS],
         segment_kinds={lv: len(seg_kinds(lv)) for lv in ("core", "std", "full", "shadow")},
         payloads=[p for _, p in PAYLOADS],
@@ -960,8 +1129,14 @@ def run(ctx):
         "literal text / custom-filter result; shadow plan: names of loop specials and dict fields inside and outside "
         "loops x dict items shadowing them x outer bindings of the same names, strict and non-strict; api plan: every "
         "template x context x strict flag through every api path (each on its own instance, judged against the "
-        "reference for that instance's registry and filters). states = distinct (template, context, mode) cases "
-        "rendered by the real Ribosome and compared with the reference (an api case = all its paths); "
+        "reference for that instance's registry and filters); isolation plan: one focus segment (a name that only a sibling "
+        "instance was given through filters= / templates= / register_template / create_template, used as default word, "
+        "include target, plain or optional variable; or a built-in filter / own template name that a sibling re-defined) "
+        "at every position among n-1 ordinary segments x context x strict flag on three instances (default constructor, "
+        "no templates, own filters and templates), each built between siblings constructed before and after it and "
+        "rendered right after two siblings rendered the same template, judged against the reference parametrised by the "
+        "judged instance's OWN registry and filters. states = distinct (template, context, mode) cases "
+        "rendered by the real Ribosome and compared with the reference (an api / isolation case = all its paths); "
         "traces_validated_against_impl = compared renders; transitions = "
         "translate() executions of the real Ribosome caused by the compared renders (top level + include expansions, read "
         "from its own counter; attribution re-runs of single segments are not counted); non-trivial = output differs from the template "
@@ -978,7 +1153,9 @@ def run(ctx):
         "a dict item's key named item/index/first/last: both 'the dict key is seen' and 'the loop special is seen' are "
         "accepted (consistently within one render); a dict key named like an OUTER variable must win inside the loop body",
         "the text returned by a custom filter is the filtered variable's value (emitted verbatim); custom filters that "
-        "raise or return non-strings, and re-defining a built-in filter name, are not judged",
+        "raise or return non-strings, and re-defining a built-in filter name ON the judged instance, are not judged",
+        "translate(<name only a sibling instance registered>) raising is not part of the statement: not judged; assigning "
+        "into the public attributes .filters / .templates directly is not a documented extension point: not explored",
     ]
 
 
